@@ -17,8 +17,14 @@
      fix_tsexp   _parse_timestamp: sec.nsec only when the WHOLE fraction is an int (1.123456789e5 is a float,
                  the pinned source reads it as 1 s + 123456789 ns), and -0.5 stays the float -0.5 (the pinned
                  source returns Timestamp(0, 500000000) = +0.5)                (fixes/C04-om-timestamp-exponent.diff)
-     fix_sname   _parse_sample: a non-empty name in front of the braces must be a legacy name (the pinned source
-                 records ' a' verbatim, which cannot be exposed and parsed again)  (fixes/C04-om-sample-name.diff)
+     fix_sname   sample names are recorded consistently:
+                 (1) _parse_sample: a non-empty name in front of the braces must be a legacy name (the pinned source
+                 records ' a' verbatim, which cannot be exposed and parsed again)   (fixes/C04-om-sample-name.diff)
+                 (2) the implicit unknown family a sample starts takes the sample's name as it is (om_implicit_name;
+                 the pinned source applies _unquote_unescape to the already unquoted name AGAIN: the quoted sample
+                 name ' a' gives family a holding sample ' a', whose exposition is rejected with a name clash, and
+                 the quoted name a.b without metadata is rejected, no second unquoting having taken place)
+                                                                            (fixes/C04-om-implicit-family-name.diff)
    Repaired without a flag: the duplicate set of a group is emptied when the group's timestamp changes
    (fixes/C15-om-later-exposure.diff); om_group_step is the repaired step, om_group_step_orig the pinned one.  *)
 From V Require Import lib.PyBase lib.PyStr model.Validation model.Expo model.TextParser.
@@ -928,12 +934,20 @@ Section OMParser.
       end
     else do s <- om_parse_sample line; Ok (s, false).
 
+  (* the name of the implicit unknown family a sample starts.  Repaired source (fix_sname, fixes/C04-om-implicit-family-name.diff):
+     the sample's name as it is - it is already unquoted and unescaped, and a bare one was validated by _parse_sample.
+     Pinned source: _unquote_unescape is applied to it AGAIN (strip, a second unquoting when it starts with a quote
+     character, a second unescaping) and the result must be a legacy name unless that second unquoting happened. *)
+  Definition om_implicit_name (sample : om_sample) : res str :=
+    if fix_sname then Ok (os_name sample) else
+    do '(cand, quoted) <- unquote_unescape_with guard_fix (os_name sample);
+    if negb quoted && negb (is_valid_legacy_metric_name cand) then Err ValueError else Ok cand.
+
   (* a sample whose name the family in progress does not allow closes it and starts an unknown family *)
   Definition om_enter_family (st : om_st) (sample : om_sample) (is_nh : bool) : res (om_st * list om_family) :=
     if negb (mem_str (os_name sample) (st_allowed st)) && negb is_nh then
       do '(out, seen') <- om_flush st;
-      do '(cand, quoted) <- unquote_unescape_with guard_fix (os_name sample);
-      if negb quoted && negb (is_valid_legacy_metric_name cand) then Err ValueError else
+      do cand <- om_implicit_name sample;
       Ok (om_new_family st seen' cand (Some OM_unknown) [os_name sample], out)
     else Ok (st, []).
 
